@@ -317,6 +317,8 @@ var ghostLevelOf func(ll *LevelList, t *Table) int
 //@ func Compactor.majorCompaction
 //@   property C18
 //@   atcall WriteRun: same(arg0, kv.MergeEntries(tableIters))
+//@   order read:scanErr after WriteRun
+//@   ensures result1 == nil ==> called("read:scanErr")
 //@   nosafety
 //@   requires levels != nil && len(levels.levels) >= 2 && forall(0, len(levels.levels), func(i int) bool { return levels.levels[i].tables != nil })
 //@   ensures result1 == nil ==> result0 != nil && forall(0, len(levels.levels)-1, func(i int) bool { return forall(i+1, len(levels.levels)-1, func(j int) bool {
@@ -514,6 +516,8 @@ var ghostLevelOf func(ll *LevelList, t *Table) int
 //@ func Compactor.minorCompaction
 //@   property C18
 //@   atcall WriteRun: same(arg0, kv.MergeEntries(tableIters))
+//@   order read:scanErr after WriteRun
+//@   ensures result1 == nil && result0 != nil ==> called("read:scanErr")
 //@   nosafety
 //@   requires levels != nil && len(levels.levels) >= 2 && c.minorCompactionLevel >= 0
 //@   requires forall(0, len(levels.levels), func(i int) bool { return levels.levels[i].tables != nil && levels.levels[i].Num == i })
